@@ -57,7 +57,7 @@ def summary (s : State) : String :=
     | some (.complete r) => s!"complete:{r.blocks.length}:{r.next.length}"
     | some (.partial_ p k) => s!"partial:{k}/{p.remaining}:{p.partialBlock.length / 2}"
   let b (x : Bool) : Nat := if x then 1 else 0
-  s!"stable={s.utxos.nextHeight} ingesting={b s.utxos.ingesting.isSome} fetching={b sy.isFetching} resp={resp} rej={sy.rejects} deser={sy.deserializeErrors} insert={sy.insertErrors} blocks={s.unstable.tree.blocksCount} maxnext={showOptNat s.unstable.next.maxHeight}"
+  s!"stable={s.utxos.nextHeight} ingesting={b s.utxos.ingesting.isSome} fetching={b sy.isFetching} resp={resp} rej={sy.rejects} deser={sy.deserializeErrors} insert={sy.insertErrors} blocks={s.unstable.tree.blocksCount} maxnext={showOptNat s.unstable.next.maxHeight} nnext={s.unstable.next.byHash.length}"
 
 def envOf (d : DState) : Env :=
   { now := d.now
